@@ -34,14 +34,15 @@ func init() {
 		ID: "C09",
 		Explanation: "Decides two structural necessary conditions of 'compare is a transitive total preorder': (NUMSET) the sets of number representations used by the comparison machinery agree everywhere - the outer and inner type switches of cmpInner, the switch over the unified operand, getNumType, and typeOf's number class (plus int, which typeOf(0) contributes) are all exactly {int, *big.Int, *big.Rat, float64}, so no mixed pair falls through to 'uncomparable' and compare &total does not split numbers by representation; (CMP-DOMAINS) operands of one exact type must not be ordered through a lossy image while the same comparison also orders that type exactly: such a pair always yields a non-transitive triple. CMP-DOMAINS fires on today's tree (known finding: mixed exact/float comparison goes through ConvertToFloat64). Reflexivity, symmetry, NaN placement and list order are value-level and not decided.",
 		NotCovered:  "reflexivity/symmetry, NaN placement, lexicographic list order, byte order of strings",
-		Rules:       []string{"NUMSET", "CMP-DOMAINS"},
+		Rules:       []string{"NUMSET", "CMP-DOMAINS", "TOTAL-RECURSE: CmpTotal orders list elements with CmpTotal"},
 		Patterns:    []string{"./pkg/eval/vals"},
 		Run:         runC09,
-		MinCounts:   map[string]int{"NUMSET": 4, "CMP-DOMAINS": 1},
+		MinCounts:   map[string]int{"NUMSET": 4, "CMP-DOMAINS": 1, "TOTAL-RECURSE": 1},
 		Trusted:     trustedBase,
 		Controls: []core.Control{
 			{Name: "typeof-drops-bigrat", Rule: "NUMSET", File: "pkg/eval/vals/cmp.go", Old: "\tcase *big.Int, *big.Rat, float64:\n\t\treturn typeOfInt", New: "\tcase *big.Int, float64:\n\t\treturn typeOfInt", Fire: true, Quick: true},
 			{Name: "cmp-inner-switch-drops-bigint", Rule: "NUMSET", File: "pkg/eval/vals/cmp.go", Old: "\t\tswitch b.(type) {\n\t\tcase int, *big.Int, *big.Rat, float64:", New: "\t\tswitch b.(type) {\n\t\tcase int, *big.Rat, float64:", Fire: true},
+			{Name: "total-compare-recurses-with-partial-cmp", Rule: "TOTAL-RECURSE", File: "pkg/eval/vals/cmp.go", Old: "cmpInner(a, b, CmpTotal)", New: "cmpInner(a, b, Cmp)", Fire: true},
 			{Name: "benign-reordered-cases", Rule: "NUMSET", File: "pkg/eval/vals/cmp.go", Old: "\tcase *big.Int, *big.Rat, float64:\n\t\treturn typeOfInt", New: "\tcase float64, *big.Rat, *big.Int:\n\t\treturn typeOfInt", Fire: false},
 		},
 	})
@@ -458,13 +459,47 @@ func numCaseSets(fn *ssa.Function) map[ssa.Value]map[string]bool {
 }
 
 func runC09(p *core.Program, r *core.Report) {
-	cmpInner := p.Func(pkgVals, "cmpInner")
+	cmpFn := p.Func(pkgVals, "Cmp")
+	cmpTotal := p.Func(pkgVals, "CmpTotal")
 	typeOf := p.Func(pkgVals, "typeOf")
 	getNumType := p.Func(pkgVals, "getNumType")
 	unify2 := p.Func(pkgVals, "UnifyNums2")
-	if !r.Anchor("NUMSET", "vals.cmpInner, typeOf, getNumType, UnifyNums2", cmpInner != nil && typeOf != nil && getNumType != nil && unify2 != nil) {
+	if !r.Anchor("NUMSET", "vals.Cmp, CmpTotal, typeOf, getNumType, UnifyNums2", cmpFn != nil && cmpTotal != nil && typeOf != nil && getNumType != nil && unify2 != nil) {
 		return
 	}
+	// the function that does the per-type comparison: the one reachable from
+	// Cmp (in package vals, not through UnifyNums2) with the most number switches
+	var cmpInner *ssa.Function
+	{
+		best := -1
+		seenF := map[*ssa.Function]bool{}
+		var walk func(f *ssa.Function)
+		walk = func(f *ssa.Function) {
+			if f == nil || seenF[f] || f.Blocks == nil || core.PkgPathOf(f) != pkgVals || f == unify2 {
+				return
+			}
+			seenF[f] = true
+			n := 0
+			for _, s := range numCaseSets(f) {
+				if len(s) > 1 {
+					n++
+				}
+			}
+			if n > best {
+				best, cmpInner = n, f
+			}
+			core.Instrs(f, func(ins ssa.Instruction) {
+				if c, ok := ins.(ssa.CallInstruction); ok {
+					walk(c.Common().StaticCallee())
+				}
+			})
+		}
+		walk(cmpFn)
+	}
+	if !r.Anchor("NUMSET", "the per-type comparison function reachable from vals.Cmp", cmpInner != nil) {
+		return
+	}
+	runTotalRecurse(p, r, cmpFn, cmpTotal)
 	full := "*big.Int,*big.Rat,float64,int"
 	check := func(fn *ssa.Function, label string, want string, minGroups int) {
 		sets := numCaseSets(fn)
@@ -499,7 +534,7 @@ func runC09(p *core.Program, r *core.Report) {
 			r.OK("NUMSET", construct, p.Pos(fn.Pos()), itoa(n)+" number switch(es), each over exactly {"+want+"}")
 		}
 	}
-	check(cmpInner, "vals.cmpInner", full, 3)
+	check(cmpInner, "the per-type comparison of vals.Cmp", full, 3)
 	check(getNumType, "vals.getNumType", full, 1)
 	check(typeOf, "vals.typeOf", "*big.Int,*big.Rat,float64", 1)
 	// typeOfInt is typeOf(0): the int representation joins the class
@@ -566,12 +601,89 @@ func runC09(p *core.Program, r *core.Report) {
 			}
 		})
 	}
-	visit(cmpInner, "vals.cmpInner")
+	visit(cmpInner, "vals."+cmpInner.Name())
 	construct := "vals.cmpInner -> UnifyNums2 -> ConvertToFloat64 orders exact numbers through float64"
 	if lossy != "" {
 		r.Bad("CMP-DOMAINS", construct, p.InsPos(where), "a mixed exact/inexact pair is compared after converting the exact operand to float64 ("+lossy+"), while exact pairs are compared exactly: compare 9007199254740993 (float64 9007199254740992) = 0 and compare (float64 9007199254740992) 9007199254740992 = 0 but compare 9007199254740993 9007199254740992 = 1, so compare is not transitive")
 	} else {
 		r.OK("CMP-DOMAINS", "vals.cmpInner compares mixed pairs without a lossy conversion", p.Pos(cmpInner.Pos()), "no conversion of an exact operand to float64 on the comparison path")
+	}
+}
+
+// runTotalRecurse: the total comparison must also be total on list
+// elements: whatever compares the elements of two lists on behalf of
+// CmpTotal must be CmpTotal itself (passed as the recursion callback), not
+// the partial comparison.
+func runTotalRecurse(p *core.Program, r *core.Report, cmpFn, cmpTotal *ssa.Function) {
+	const construct = "vals.CmpTotal compares list elements with the total comparison"
+	// find, among the functions CmpTotal reaches in package vals, the call that compares two iterator elements
+	type elemCmp struct {
+		fn   *ssa.Function
+		call *ssa.Call
+	}
+	var found []elemCmp
+	seenF := map[*ssa.Function]bool{}
+	var passed []ssa.Value // function values CmpTotal passes down
+	var walk func(f *ssa.Function)
+	walk = func(f *ssa.Function) {
+		if f == nil || seenF[f] || f.Blocks == nil || core.PkgPathOf(f) != pkgVals {
+			return
+		}
+		seenF[f] = true
+		core.Instrs(f, func(ins ssa.Instruction) {
+			c, ok := ins.(*ssa.Call)
+			if !ok {
+				return
+			}
+			// a call whose two arguments are both results of an iterator's Elem()
+			if len(c.Call.Args) >= 2 {
+				n := 0
+				for _, a := range c.Call.Args {
+					if ec, ok := a.(*ssa.Call); ok && ec.Call.IsInvoke() && ec.Call.Method.Name() == "Elem" {
+						n++
+					}
+				}
+				if n == 2 && c.Type().String() != "bool" {
+					found = append(found, elemCmp{f, c})
+				}
+			}
+			if f == cmpTotal {
+				for _, a := range c.Call.Args {
+					if fv := fnOfValue(a); fv != nil {
+						passed = append(passed, fv)
+					}
+				}
+			}
+			if callee := c.Call.StaticCallee(); callee != nil && callee.Name() != "Equal" {
+				walk(callee)
+			}
+		})
+	}
+	walk(cmpTotal)
+	if len(found) == 0 {
+		r.Bad("TOTAL-RECURSE", construct, p.Pos(cmpTotal.Pos()), "cannot find where list elements are compared on behalf of compare &total")
+		return
+	}
+	for _, ec := range found {
+		okRec := false
+		detail := ""
+		if callee := ec.call.Call.StaticCallee(); callee != nil {
+			okRec = callee == cmpTotal
+			detail = "list elements are compared with " + callee.Name() + " even when the comparison was started by CmpTotal"
+		} else if prm, ok := ec.call.Call.Value.(*ssa.Parameter); ok {
+			// a callback parameter: CmpTotal must pass itself
+			for _, v := range passed {
+				if v == ssa.Value(cmpTotal) {
+					okRec = true
+				}
+			}
+			detail = "CmpTotal does not pass itself as the recursion callback " + prm.Name()
+		}
+		if okRec {
+			r.OK("TOTAL-RECURSE", construct, p.InsPos(ec.call), "the element comparison is CmpTotal itself (directly or as the recursion callback)")
+		} else {
+			r.Bad("TOTAL-RECURSE", construct, p.InsPos(ec.call), detail+": inside lists, compare &total stops grouping values by type and treats the first uncomparable pair as 'equal', so it is neither total nor transitive on lists")
+		}
 	}
 }
 
